@@ -231,6 +231,15 @@ class CircuitCompositeOperation(ICircuitCompositeOperation):
         # Guard clause, if graph does not contain non-Head nodes, return zero total duration
         if self.empty_composite:
             return total_duration
+        # Apply relation-link head, such that all internal operations are scheduled in the same reference frame
+        # (operations added after the last listing do not carry it yet)
+        for node in self._circuit_graph.get_node_iterator():
+            link: IRelationLink = node.operation.relation_link
+            # NOTE: Equivalent to 'not has_relation', without evaluating the (latest) reference of group relations.
+            requires_head: bool = isinstance(link, RelationLink) and link.reference_node is None
+            if requires_head and self.has_relation:
+                node.operation.relation_link = self.relation_link
+                clear_start_time_cache()  # Relation changed
         # Calculate relative start time of internal operations
         # NOTE: Earliest start / latest end are not necessarily found at the first (depth=1) / leaf nodes.
         # (e.g. a long operation with a shorter JOINED_START successor, or JOINED_END with a longer duration).
